@@ -435,7 +435,13 @@ def job(j: Dict[str, Any]) -> Dict[str, Any]:
     # witness / lifting: concrete differential of the whole program (also the vacuity guard)
     found, n = concrete_search(teal, nn, nd, rng, j["concrete_tries"], hints)
     out["concrete_runs"] = n
+    out["unconfirmed_contract_cex"] = 0
     for c in res["cex"]:
+        if not found:
+            # a contract counterexample starts from an ARBITRARY stack; without a run of the whole program that goes wrong it may
+            # be a pre-state no execution reaches (the contract, not the code, would be at fault): inconclusive, never a violation
+            out["unconfirmed_contract_cex"] += 1
+            continue
         out["violations"].append({"kind": "segment-contract", "nn": nn, "nd": nd, "version": v, "wrap": wrap,
                                   "contract": c["what"], "segment": c["segment"], "stack_values": c["values"],
                                   "whole_program_input": found, "teal": teal})
@@ -547,7 +553,7 @@ def main() -> int:
             rep.harness_error("%s: emitted stream no longer decomposes into first/step/final segments: %s" % (r["id"], r["decomposition_error"]))
             continue
         programs += 1
-        ob += r["obligations"]; dis += r["discharged"]; inc += r["inconclusive"]; st += r["solver_time"]
+        ob += r["obligations"]; dis += r["discharged"]; inc += r["inconclusive"] + r.get("unconfirmed_contract_cex", 0); st += r["solver_time"]
         conc += r["concrete_runs"]
         for b in r.get("bv", []):
             bvres.append({"id": r["id"], **b})
